@@ -345,6 +345,20 @@ Section RoomAuthFacts.
       + rewrite Hh in H. injection H as _ <-. reflexivity.
   Qed.
 
+  (* whatever is published or reaches a client was authenticated *)
+  Lemma event_needs_mac cfg th t a q th' r b :
+    handle' cfg th t a q = (th', r) ->
+    published body_kind r (q_body q) = Some b \/ client_event body_kind r (q_body q) = Some b ->
+    r = RAuth b /\ resolve' cfg q = Some b /\
+    q_chk q = hex (hmac (b_secret b) (q_rnd q ++ q_body q)).
+  Proof.
+    intros H E.
+    assert (R : r = RAuth b).
+    { destruct r as [s| | |d|b0]; cbn in E; try (destruct E; discriminate).
+      destruct (body_kind (q_body q)); destruct E as [E|E]; try discriminate; now injection E as ->. }
+    subst r. apply room_api_accept_sound in H. tauto.
+  Qed.
+
   (* a refused checksum feeds the throttler; missing headers and pre-check failures do not *)
   Lemma reject_recorded cfg th t a q th' d :
     handle' cfg th t a q = (th', RForbidden d) ->
